@@ -27,7 +27,15 @@ def pagerank(a):
              'PageRank': lambda: PageRank(damping_factor=0.5, solver='piteration')}[name]().fit(m)
         except Exception:       # noqa  (an algorithm that refuses the graph is not the subject here)
             pass
-    pr = PageRank(damping_factor=a['damping'], solver=a['solver'], n_iter=a['n_iter'], tol=a['tol'])
+    via = a.get('via', 'ctor')
+    if via == 'set_params':
+        pr = PageRank(damping_factor=0.3, solver='piteration', n_iter=3, tol=1e-2)
+        pr.set_params({'damping_factor': a['damping'], 'solver': a['solver'], 'n_iter': a['n_iter'], 'tol': a['tol']})
+    elif via == 'attr':
+        pr = PageRank()
+        pr.damping_factor, pr.solver, pr.n_iter, pr.tol = a['damping'], a['solver'], a['n_iter'], a['tol']
+    else:
+        pr = PageRank(damping_factor=a['damping'], solver=a['solver'], n_iter=a['n_iter'], tol=a['tol'])
     captured = []
     orig = np.argsort
     if a['solver'] == 'push':
@@ -53,7 +61,15 @@ def pagerank(a):
 
 def katz(a):
     m = mk_matrix(a['m'])
-    k = Katz(damping_factor=a['damping'], path_length=a['path_length'])
+    via = a.get('via', 'ctor')
+    if via == 'set_params':       # an estimator built with other parameters and reconfigured before the fit (a parameter sweep)
+        k = Katz(damping_factor=0.9, path_length=2)
+        k.set_params({'damping_factor': a['damping'], 'path_length': a['path_length']})
+    elif via == 'attr':
+        k = Katz()
+        k.damping_factor, k.path_length = a['damping'], a['path_length']
+    else:
+        k = Katz(damping_factor=a['damping'], path_length=a['path_length'])
     k.fit(m)
     if k.bipartite:
         return {'bipartite': True, 'row': tolist(k.scores_row_), 'col': tolist(k.scores_col_)}
